@@ -19,7 +19,7 @@ import (
 	"verif/harness/stats"
 )
 
-const c27Rule = "histories of create store / committed add-update-upsert-remove transactions / drop store (infs.RemoveBtree with both folders) on a replicated environment (2 store folders + EC drives, in-memory L2, registry hash modulus 2-5), with soft restarts (the cached replication status is forgotten and re-read from replstat.txt), optionally one or two passive-side failures (segment path a directory, storeinfo.txt a directory, store folder a regular file, passive base folder a regular file, k-th direct-I/O block write below the passive folder fails) each first hit by a commit, then repair + infs.ReinstateFailedDrives + more steps; oracle: a copy of the environment is read by two fresh child processes, one reads the active side, one fails over (fs.TriggerFailover, former active folder renamed away) and walks every store of GetStores; passive view == active view == reference model (names, items, Count); at a failure: the commit returns nil, a fresh child reading the active side == model (else a control run without the failure decides the blame), replstat.txt says FailedToReplicate; non-trivial = two commits touching one store, or a sabotage, or a store drop; distinct by rendered history"
+const c27Rule = "histories of create store / committed add-update-upsert-remove transactions / drop store (infs.RemoveBtree with both folders) on a replicated environment (2 store folders + EC drives, in-memory L2, registry hash modulus 2-5), with soft restarts (the cached replication status is forgotten and re-read from replstat.txt), optionally one or two passive-side failures (segment path a directory, storeinfo.txt a directory, store folder a regular file, passive base folder a regular file, k-th direct-I/O block write below the passive folder fails) each first hit by a commit, optionally a reinstate attempt while still broken (must leave things consistent; commits made after it are replayed by the later reinstate), then repair + infs.ReinstateFailedDrives + more steps; oracle: a copy of the environment is read by two fresh child processes, one reads the active side, one fails over (fs.TriggerFailover, former active folder renamed away) and walks every store of GetStores; passive view == active view == reference model (names, items, Count); at a failure: the commit returns nil, a fresh child reading the active side == model (else a control run without the failure decides the blame), replstat.txt says FailedToReplicate; non-trivial = two commits touching one store, or a sabotage, or a store drop; distinct by rendered history"
 
 // ---------------------------------------------------------------------------------------
 // model
@@ -30,6 +30,15 @@ type mstore struct {
 	items map[int]string
 	// commits that touched this store since it was (re)created
 	commits int
+}
+
+func (s *mstore) keys() []int {
+	var ks []int
+	for k := range s.items {
+		ks = append(ks, k)
+	}
+	sort.Ints(ks)
+	return ks
 }
 
 type storeOpt struct {
@@ -171,6 +180,11 @@ type runner struct {
 	noExcl   bool // regression replay of a listed finding: do not end the case at its class
 	sabCount int
 	maxKey   int
+	logged   int // commits made after a failed reinstate attempt, before the reinstate
+	// replayWindow: a reinstate attempt has failed and switched commit logging on; every commit until the successful
+	// reinstate is replayed by its fast-forward
+	replayWindow bool
+	excluded     int
 }
 
 func (r *runner) label(s string) { r.labels[s] = true }
@@ -198,12 +212,23 @@ func (r *runner) genOps(name string, mustAddNew bool) storeOps {
 	for i := 0; i < n; i++ {
 		o := op{Key: rapid.IntRange(0, r.maxKey).Draw(r.rt, "key")}
 		o.K = rapid.SampledFrom([]string{"add", "add", "ups", "upd", "rem", "rem"}).Draw(r.rt, "op")
+		if r.updOnly() {
+			// listed finding (fast-forward is not idempotent): between a failed reinstate attempt and the reinstate,
+			// no commit creates or removes a node; value updates of existing items only
+			if o.K != "upd" {
+				r.excluded++
+			}
+			o.K = "upd"
+			if keys := s.keys(); len(keys) > 0 {
+				o.Key = keys[o.Key%len(keys)]
+			}
+		}
 		if o.K != "rem" {
 			o.Pad = rapid.SampledFrom(pads).Draw(r.rt, "pad")
 		}
 		so.Ops = append(so.Ops, o)
 	}
-	if mustAddNew {
+	if mustAddNew && !r.updOnly() {
 		// keys this store does not have and this transaction does not touch, so the commit
 		// certainly writes a node handle and a registry block; and the net item count must
 		// change, because a store's info is only rewritten (and replicated) when it does
@@ -231,6 +256,11 @@ func (r *runner) genOps(name string, mustAddNew bool) storeOps {
 		}
 	}
 	return so
+}
+
+// updOnly: see genOps.
+func (r *runner) updOnly() bool {
+	return r.replayWindow && !r.noExcl && stats.Known("C27", slugFastForward)
 }
 
 // failing reports whether a passive-side failure is (or may still be) in effect.
@@ -492,6 +522,9 @@ func (r *runner) exec(st step) {
 			r.label("txn:while-marked-failed")
 		}
 		r.applyTxn("", nil, st.Txn)
+		if r.labels["reinstate:attempt-while-broken-failed"] && r.phase != phNormal {
+			r.logged++
+		}
 		if r.pending && !r.control {
 			r.afterHit()
 		}
@@ -555,10 +588,33 @@ func (r *runner) exec(st step) {
 			r.label("repair:io-works-again")
 		}
 		r.phase = phRepaired
+	case "reinstate-early":
+		// ReinstateFailedDrives while the passive path is still unusable: it has to fail (its copy step cannot write
+		// there) and leaves commit logging switched on; commits made from then on are replayed ("fast-forward") by
+		// the reinstate that follows the repair
+		err := infs.ReinstateFailedDrives(r.ctx, r.l.Folders(), sop.InMemory)
+		if err == nil {
+			if d, found, e2 := readReplStat(r.l.Active()); e2 == nil && found && !d.FailedToReplicate {
+				// it did not touch the unusable path and says all is well: not a history this check can judge
+				panic(coreDivergence{"ReinstateFailedDrives returned nil while the passive path was still unusable"})
+			}
+		}
+		r.label("reinstate:attempt-while-broken")
+		if err != nil {
+			r.label("reinstate:attempt-while-broken-failed")
+			r.replayWindow = true
+		}
 	case "reinstate":
+		if r.labels["reinstate:attempt-while-broken-failed"] && r.logged >= 2 {
+			r.label("reinstate:fast-forwards-two-or-more-commits")
+		}
 		if !r.noExcl && !r.control && stats.Known("C27", slugReinstateStoreInfo) && r.inKnownReinstateClass() {
 			// listed finding: the case ends here, by construction, before the reinstate
 			panic(knownClass{slugReinstateStoreInfo})
+		}
+		if os.Getenv("VERIF_DEBUG") != "" {
+			b, _ := json.Marshal(script{r.l.At(""), r.steps})
+			fmt.Fprintf(os.Stderr, "DEBUG before reinstate: %s\n", b)
 		}
 		if err := infs.ReinstateFailedDrives(r.ctx, r.l.Folders(), sop.InMemory); err != nil {
 			r.fatalf("ReinstateFailedDrives failed after the passive path was repaired: %v", err)
@@ -569,6 +625,9 @@ func (r *runner) exec(st step) {
 		}
 		r.phase = phNormal
 		r.sabKind = ""
+		r.logged = 0
+		r.replayWindow = false
+		delete(r.labels, "reinstate:attempt-while-broken-failed")
 		r.label("reinstate")
 	default:
 		r.harness(fmt.Errorf("unknown step kind %q", st.Kind))
@@ -681,7 +740,7 @@ type script struct {
 func TestC27_ReplicaFaithfulAndReinstated(t *testing.T) {
 	rec := stats.For("C27").Meta("exploration", c27Rule,
 		"store creation and the first hit of a passive failure by a store drop/creation are outside the statement (it speaks of commits): no store is created while a passive path is unusable, and the first operation after a sabotage is a commit touching the sabotaged store",
-		"commits do not overlap ReinstateFailedDrives (single-threaded history); the fast-forward of commits logged during a reinstate is not exercised",
+		"commits do not overlap a RUNNING ReinstateFailedDrives (single-threaded history); its fast-forward of logged commits is reached through a reinstate attempt that fails while the passive path is still unusable (commit logging stays on), commits made after it, then repair and a second reinstate",
 		"the soft restart forgets only the cached replication status (fs.GlobalReplicationDetails and its L2 entry); every comparison is made by a real fresh process")
 	maxSteps := stats.Pick(9, 14)
 	rapid.Check(t, func(t *rapid.T) {
@@ -714,6 +773,9 @@ func TestC27_ReplicaFaithfulAndReinstated(t *testing.T) {
 				labels = append(labels, "class:with-sabotage")
 			} else {
 				labels = append(labels, "class:no-sabotage")
+			}
+			for i := 0; i < r.excluded; i++ {
+				rec.Exclude("operation turned into a value update: between a failed reinstate attempt and the reinstate no commit creates or removes a node (listed finding " + slugFastForward + ")")
 			}
 			rec.Case(string(canon), nontrivial, append(labels, extra...)...)
 			switch {
@@ -784,9 +846,29 @@ func TestC27_ReplicaFaithfulAndReinstated(t *testing.T) {
 			case phBroken:
 				acts := []string{"repair", "repair", "restart"}
 				if len(r.m) > 0 {
-					acts = append(acts, "txn", "txn", "drop")
+					acts = append(acts, "txn", "txn")
+					if !r.updOnly() {
+						acts = append(acts, "drop")
+					}
+				}
+				if r.ps != nil && len(r.m) > 0 {
+					acts = append(acts, "reinstate-early", "reinstate-early")
 				}
 				switch rapid.SampledFrom(acts).Draw(t, "actBroken") {
+				case "reinstate-early":
+					// a failed attempt, the process restarts (commit logging is read from replstat.txt), then
+					// usually several commits on one store, which the later reinstate has to replay in order
+					r.exec(step{Kind: "reinstate-early"})
+					if rapid.IntRange(0, 3).Draw(t, "restartAfterAttempt") > 0 {
+						r.exec(step{Kind: "restart"})
+					}
+					names := r.m.names()
+					if len(names) > 0 {
+						st := rapid.SampledFrom(names).Draw(t, "loggedStore")
+						for k, n := 0, rapid.IntRange(0, 3).Draw(t, "loggedCommits"); k < n; k++ {
+							r.exec(r.genTxn(st, "logged for the fast-forward"))
+						}
+					}
 				case "txn":
 					r.exec(r.genTxn("", ""))
 				case "drop":
@@ -799,9 +881,13 @@ func TestC27_ReplicaFaithfulAndReinstated(t *testing.T) {
 			case phRepaired:
 				acts := []string{"reinstate", "reinstate", "restart"}
 				if len(r.m) > 0 {
-					acts = append(acts, "txn", "txn", "drop")
+					acts = append(acts, "txn", "txn")
+					if !r.updOnly() {
+						// (listed finding: the replay of a logged commit fails when its store was dropped meanwhile)
+						acts = append(acts, "drop")
+					}
 				}
-				if len(r.m) < len(storeNames) {
+				if len(r.m) < len(storeNames) && !r.updOnly() {
 					acts = append(acts, "create")
 				}
 				switch rapid.SampledFrom(acts).Draw(t, "actRepaired") {
